@@ -1421,13 +1421,13 @@ impl<'a, 'b, W: Write> Serializer for &'a mut YamlSerializer<'b, W> {
             }
             NAME_SPACE_AFTER => {
                 // Serialize the value, then emit an empty line after (only in block style).
-                let result = value.serialize(&mut *self);
+                value.serialize(&mut *self)?;
                 // After a block scalar with keep chomping the blank line would be content.
                 if self.in_flow == 0 && !self.after_kept_line_breaks {
                     // Emit an extra blank line after the value
                     self.newline()?;
                 }
-                return result;
+                return Ok(());
             }
             _ => {}
         }
